@@ -33,6 +33,12 @@ def _returns_float(ctx: Ctx, f: Func) -> bool:
     return "float" in r
 
 
+# true divisions truncated back to an integer that are exact for a reviewed reason: (function, expression) -> reason
+FLOAT_DIV_REVIEWED = {
+    ("_TimePeriodField.__init__", "PyodaConstants.NANOSECONDS_PER_DAY / unit_nanoseconds"): "every unit divides a day exactly and the quotient is below 2**53: R10.13 checks unit x units-per-day == one day for each of the seven instances",
+}
+
+
 def check_numeric(ctx: Ctx, rr: RuleResult, modules: Iterable[str], decoder_exempt: set[str] | None = None) -> None:
     M = ctx.M
     mods = set(modules)
@@ -147,6 +153,10 @@ def check_numeric(ctx: Ctx, rr: RuleResult, modules: Iterable[str], decoder_exem
                 p_ = getattr(p_, "_parent", None)
             if ok_a and ok_b and not truncated:
                 rr.fail(where, f"true division on an integer quantity whose float result is used as it is: `{txt}` (no int()/trunc around it: the value is rounded, not truncated, by whatever consumes it)", f"{fn.mod.rel}:{node.lineno}", rule_clause="float discipline")
+            elif ok_a and ok_b and kind == "Div" and truncated and (where, txt) in FLOAT_DIV_REVIEWED:
+                rr.ok({"site": where, "op": txt, "why": FLOAT_DIV_REVIEWED[(where, txt)]})
+            elif ok_a and ok_b and kind == "Div" and truncated:
+                rr.fail(where, f"true division whose quotient is truncated back to an integer: `{txt}` - the exact quotient of two integers is generally not a float (0.0157 is not), so int() of the rounded value is one too small for a share of the inputs even when both operands are small; use integer arithmetic", f"{fn.mod.rel}:{node.lineno}", rule_clause="float discipline")
             elif ok_a and ok_b:
                 rr.ok({"site": where, "op": txt, "why": f"operands bounded below 2**53: {a} / {b}"})
             else:
